@@ -12,6 +12,32 @@ EPOCH = datetime.datetime(1970, 1, 1)
 NDAYS = 47482 + 365 * 12      # 1970 .. 2111
 
 
+def generated_model():
+    """the second tie of this property: isLeapYear / readUnixTime / toAbsTime are TRANSLATED from /repo's current obs_time.py on every run (harness/py2coq.py)
+    and coq/GenProofs/ObsTimeGen_eq.v proves, for the text generated now, that they are the model's is_leap / read_unix / to_abs and restates the round-trip and order theorems for them; the comparison methods are translated and tied the same way"""
+    import os, shutil, subprocess, tempfile
+    from core import TL_ROOT, COQ_DIR
+    import py2coq
+    res = {'scope': 'ObsTime.isLeapYear, readUnixTime, toAbsTime on whole seconds ((int)(a / b) is Z.quot, the term + ms / 1000.0 kept apart) and the comparison methods __eq__ __ne__ __lt__ __gt__ __le__ __ge__ (the isinstance guard of __eq__ is the typing of the model)',
+           'proof': 'coq/GenProofs/ObsTimeGen_eq.v: gen_readUnixTime_eq, gen_toAbsTime_eq, gen_lt_eq, gen_gt_eq, gen_eq_eq, gen_ne_eq, gen_ge_eq, gen_le_eq; restated theorems gen_seconds_roundtrip, gen_calendar_roundtrip, gen_lt_iff, gen_gt_iff, gen_eq_iff'}
+    try:
+        text = py2coq.translate_obstime(os.path.join(TL_ROOT, 'tracklib', 'core', 'obs_time.py'))
+    except (py2coq.Untranslatable, SyntaxError) as e:
+        return dict(res, ok=False, what='the source is outside the translated subset', tail=str(e))
+    d = tempfile.mkdtemp(prefix='tlgen_C03_')
+    try:
+        open(os.path.join(d, 'ObsTimeGen.v'), 'w').write(text)
+        shutil.copy(os.path.join(COQ_DIR, 'GenProofs', 'ObsTimeGen_eq.v'), d)
+        for f in ('ObsTimeGen.v', 'ObsTimeGen_eq.v'):
+            p = subprocess.run('timeout 600 coqc -Q %s TL -Q . TLGen %s' % (COQ_DIR, f), shell=True, cwd=d, capture_output=True, text=True)
+            if p.returncode != 0:
+                return dict(res, ok=False, what='%s no longer checks against the generated text' % ('the generated file' if f == 'ObsTimeGen.v' else 'the equivalence proof'), tail=(p.stdout + p.stderr)[-800:])
+        closed = (p.stdout + p.stderr).count('Closed under the global context')
+        return dict(res, ok=True, what='checked', tail='', print_assumptions='%d of 4 closed under the global context' % closed, generated_chars=len(text))
+    finally:
+        shutil.rmtree(d, ignore_errors=True)
+
+
 def special_days():
     out = []
     for d in range(NDAYS):
